@@ -853,10 +853,10 @@ def run(ck: Check):
         if u["op"] == "propose":
             h.append({"op": "reject", "ref": 1})
         handle(h, "exhaustive/warm+1")
-    # pairs (all in the thorough tier, a sample in the quick one)
+    # pairs (a random sample; larger in the thorough tier)
     pairs = [(a, b) for a in singles for b in singles if a["op"] != "propose" and b["op"] != "propose"]
     rng.shuffle(pairs)
-    for a, b in pairs[: (len(pairs) if ck.thorough() else 25)]:
+    for a, b in pairs[: (500 if ck.thorough() else 25)]:
         handle([{"op": "evalall"}, dict(a), dict(b)], "exhaustive/warm+2")
     # cold start (flags as the constructors leave them), every single update
     for u in singles[:: (1 if ck.thorough() else 4)]:
@@ -864,13 +864,13 @@ def run(ck: Check):
             handle([dict(u)], "exhaustive/cold+1")
 
     # ---- random histories
-    n_hist = 400 if ck.thorough() else 40
+    n_hist = 150 if ck.thorough() else 40
     max_len = 40 if ck.thorough() else 12
     for _ in range(n_hist):
         L = rng.randint(2, max_len)
         handle(gen_history(g0, rng, L), f"random/len<={((L - 1) // 10 + 1) * 10}")
-        if ck.thorough() is False and (ck_time(ck) > 70):
-            ck.notes.append("quick tier: stopped random histories at the time budget")
+        if ck_time(ck) > (780 if ck.thorough() else 70):
+            ck.notes.append("stopped random histories at the time budget")
             break
 
     if drv:
